@@ -9,8 +9,10 @@ import (
 	"fmt"
 	"io"
 	mrand "math/rand/v2"
+	"runtime"
 	"sort"
 	"sync"
+	"sync/atomic"
 	"testing"
 	"time"
 
@@ -290,9 +292,95 @@ func (c *c16Run) write(u *c16User, up, down, exp *int64) {
 	}
 }
 
+// c16Conservation: connection goroutines meter bytes on a user's valve while the periodic
+// collection and per-user collections (terminations) run concurrently; afterwards the usage queue
+// must hold exactly what was metered - nothing lost, nothing counted twice. Real goroutines on
+// several Ps, no bubble.
+func c16Conservation(r *vk.Reporter, rng *mrand.Rand, writers, adds int) (string, string) {
+	e := newC17Env(rng, 1, 10)
+	defer e.close()
+	u, _ := e.admit(0, 1)
+	if u == nil {
+		return "inconclusive", "user not admitted"
+	}
+	defer runtime.GOMAXPROCS(runtime.GOMAXPROCS(max(4, writers)))
+	var up, down atomic.Int64
+	var wg sync.WaitGroup
+	stop := make(chan struct{})
+	for w := 0; w < writers; w++ {
+		seed := rng.Uint64()
+		wg.Add(1)
+		go func() {
+			defer wg.Done()
+			lr := mrand.New(mrand.NewPCG(seed, 5))
+			for k := 0; k < adds; k++ {
+				a, b := int64(1+lr.IntN(16000)), int64(1+lr.IntN(16000))
+				u.valve.AddRx(a)
+				up.Add(a)
+				u.valve.AddTx(b)
+				down.Add(b)
+			}
+		}()
+	}
+	var cg sync.WaitGroup
+	for c := 0; c < 3; c++ {
+		cg.Add(1)
+		go func() {
+			defer cg.Done()
+			for {
+				select {
+				case <-stop:
+					return
+				default:
+				}
+				if c == 0 {
+					e.panel.updateUsageQueue()
+				} else {
+					e.panel.updateUsageQueueForOne(u)
+				}
+			}
+		}()
+	}
+	wg.Wait()
+	close(stop)
+	cg.Wait()
+	e.panel.updateUsageQueue()
+	e.panel.usageUpdateQueueM.Lock()
+	q := e.panel.usageUpdateQueue[u.arrUID]
+	var qu, qd int64
+	if q != nil {
+		qu, qd = atomic.LoadInt64(q.up), atomic.LoadInt64(q.down)
+	}
+	e.panel.usageUpdateQueueM.Unlock()
+	r.Count("conservation_adds", int64(2*writers*adds))
+	if qu != up.Load() || qd != down.Load() {
+		return "not-conserved", fmt.Sprintf("%d goroutines metered %d bytes up / %d down on one user's valve while collections ran concurrently; the usage queue holds %d / %d (difference %+d / %+d): bytes were lost or counted twice",
+			writers, up.Load(), down.Load(), qu, qd, qu-up.Load(), qd-down.Load())
+	}
+	return "", ""
+}
+
 func TestVerif_C16(t *testing.T) {
 	r := vk.Open()
 	defer r.Close()
+	for i := 0; i < r.Pick(8, 64); i++ {
+		id := fmt.Sprintf("conservation-%d", i)
+		if !r.Mine(id) {
+			continue
+		}
+		r.Case(id, nil)
+		k, d := c16Conservation(r, r.Rand("c16c", i), 2+i%5, r.Pick(60000, 300000))
+		r.Count("evaluations", 1)
+		r.Distinct("cases", vk.Hash64("cons", i))
+		switch k {
+		case "":
+			r.Pass(id)
+		case "inconclusive":
+			r.Inconclusive(id, d)
+		default:
+			r.Violation(id, "C16:"+k, d, nil)
+		}
+	}
 	n := r.Pick(40, 2000)
 	for i := 0; i < n; i++ {
 		id := fmt.Sprintf("history-%d", i)
